@@ -8,6 +8,7 @@ import GmVerif.Thm.C10
 #print axioms GmVerif.Thm.C10.mac_refines
 #print axioms GmVerif.Thm.C10.mac_panic_iff
 #print axioms GmVerif.Thm.C10.decrypt_ok_iff
+#print axioms GmVerif.Thm.C10.decrypt_noncanonical_c1
 #print axioms GmVerif.Thm.C10.decrypt_total
 #print axioms GmVerif.Thm.C10.decrypt_bad_length
 #print axioms GmVerif.Thm.C10.decrypt_bad_length_kind
